@@ -3,6 +3,7 @@ use serde_json::Value;
 
 pub mod c04;
 pub mod c05;
+pub mod c09;
 pub mod c16;
 pub mod c17;
 
@@ -10,6 +11,7 @@ pub fn run(ctx: &Ctx) -> Option<PropReport> {
     Some(match ctx.prop.as_str() {
         "C04" => c04::run(ctx),
         "C05" => c05::run(ctx),
+        "C09" => c09::run(ctx),
         "C16" => c16::run(ctx),
         "C17" => c17::run(ctx),
         _ => return None,
@@ -20,6 +22,7 @@ pub fn replay(ctx: &Ctx, sub: &str, case: &Value) -> Result<(), Fail> {
     match ctx.prop.as_str() {
         "C04" => c04::replay(ctx, sub, case),
         "C05" => c05::replay(ctx, sub, case),
+        "C09" => c09::replay(ctx, sub, case),
         "C16" => c16::replay(ctx, sub, case),
         "C17" => c17::replay(ctx, sub, case),
         _ => Err(Fail::new("replay-unsupported", "no replay for this property")),
@@ -41,4 +44,10 @@ pub fn leg(prop: &str, seed: u64, n: u64, _rest: &[String]) {
         "C04" => c04::leg(seed, n),
         _ => {}
     }
+}
+
+/// Crash-only execution of journalled cases that are neither "instr" nor "program".
+pub fn exec_custom_journal(v: &Value) -> Result<(), String> {
+    let _ = v;
+    Err("unknown journal kind".into())
 }
